@@ -35,7 +35,9 @@ pub const META_KEYS: &[&str] = &[
 ];
 pub const META_VALUES: &[&str] = &["value", "a longer value", "https://example.org/a?b=c", "1", "yes: no", "Ünïcode ✓", "it's \"quoted\"", "a, b, c", "3.5 stars", "steps", "ref", "text", "serve  cold", "a  |  b"];
 pub const SECTION_NAMES: &[&str] = &["Dough", "Filling", "To serve", "Step 2 prep", "Crème", "sauce & sides", "À\u{a0}part"];
-pub const STEP_LINES: &[&str] = &[">> note: remember the oven", ">> [optional: add more of it", ">> see note [a]: later", ">> wine pairing: red", ">> my key : spaced out", ">>x:y"];
+pub const STEP_LINES: &[&str] = &[">> note: remember the oven", ">> [optional: add more of it", ">> see note [a]: later", ">> wine pairing: red", ">> my key : spaced out", ">>x:y",
+    // with a front matter these are steps like the others: no key, no value, no separator
+    ">>: value", ">> key:", ">> and then just text", ">> :"];
 pub const TEXT_MODE_COMPONENTS: &[&str] = &["@salt{1%tsp}(flaky, if possible)", "#pan{}(big)", "@olive oil{2%tbsp}", "@&salt{}", "@water{1/2%l}(cold)", "#bowl", "@flour{=200%g}", "#&pan(hot)"];
 pub const DEC_FRACS: &[&str] = &["5", "25", "05", "75", "125", "0", "50"];
 
